@@ -27,6 +27,8 @@ CLS = {
     'StateInit': A.StateInit, 'CommonMsgInfo': T.CommonMsgInfo, 'Message': T.MessageAny, 'AccountState': A.AccountState,
     'AccountStorage': A.AccountStorage, 'Account': A.Account, 'HashUpdate': Ut.HashUpdate, 'MsgEnvelope': T.MsgEnvelope,
     'BlockInfo': B.BlockInfo, 'ValueFlow': B.ValueFlow, 'ValidatorSet': Cf.ValidatorSet,
+    'Transaction': T.Transaction, 'ShardAccount': A.ShardAccount, 'AccountBlock': A.AccountBlock, 'ImportFees': T.ImportFees,
+    'MsgEnvelopeAny': T.MsgEnvelope, 'InMsg': T.InMsg, 'OutMsg': T.OutMsg,
 }
 
 
@@ -37,7 +39,7 @@ def tlb_cfg(types, emit='TRUE'):
 
 def model_checks(tier):
     names = sorted(CLS)
-    k = 6
+    k = 8
     chunks = [names[i::k] for i in range(k)]
     return [dict(name='tlb_g%d' % i, module='MC_Tlb.tla', gen=True, workers=2, timeout=1500, heap='4g', cfg=tlb_cfg(ch))
             for i, ch in enumerate(chunks)]
